@@ -9,9 +9,9 @@ import pC01
 PROP = "C02"
 DRIVER = "C02"
 LEAN_TARGETS = ["SmrtVerif.Props.C02", "SmrtVerif.Driver.C02"]
-TRUSTED = pC01.TRUSTED + ["stack_is_textbook is proved for stacks with the same number of streams in every layer (no total reflection) and "
-                          "diagonal interface matrices; with fewer streams in some layer the chain bookkeeping is validated by the `textbook` "
-                          "correspondence, not proved"]
+TRUSTED = pC01.TRUSTED + ["stack_is_textbook is proved for every stream / polarisation that exists in every layer (any number of streams per layer) "
+                          "under the hypotheses TrivialLayer / TrivialStack; that the objects the code hands to the assembly satisfy these "
+                          "hypotheses is checked on every correspondence case (trivial.hypotheses), not proved"]
 ASSUMPTIONS = ["in-layer cosines follow the solver's own rule sin(theta_l) = Re sqrt(eps_ref/eps_l) sin(theta_ref) (DESIGN §4 C02)",
                "loss tangent > 0: with ke = 0 the boundary system is singular (outside the statement's domain)"]
 RULE = ("random non-scattering stacks of 0..6 layers (density 120-917, thickness 1 cm-50 m, lossy ice or prescribed complex permittivity), flat / "
@@ -43,6 +43,33 @@ def dg(cv, idx, default):
     if np.ndim(cv) == 0:
         return float(default)
     return float(np.asarray(cv)[idx, idx])
+
+
+def trivial_hypotheses(c):
+    """the hypotheses of `stack_is_textbook` (Props/C02.lean: TrivialLayer, TrivialStack) checked on the objects the code hands to the
+    assembly: Eu = [I 0], Ed = [0 I], beta = (kappa, -kappa) with kappa > 0, the four interface matrices of every layer and the two air
+    matrices diagonal (or the scalar 0).  returns None or a description of what fails"""
+    from smrt.core.lib import smrt_diag
+    def diagonal(cv):
+        if isinstance(cv, smrt_diag) or np.ndim(cv) == 0:
+            return True
+        a = np.asarray(cv)
+        return a.ndim == 2 and np.count_nonzero(a - np.diag(np.diagonal(a))[: a.shape[0], : a.shape[1]]) == 0 if a.shape[0] == a.shape[1] else False
+    for k, ly in enumerate(c.layers[:c.L]):
+        n = ly["n"] * c.npol
+        Eu, Ed, beta = np.asarray(ly["Eu"]), np.asarray(ly["Ed"]), np.asarray(ly["beta"])
+        if Eu.shape != (n, 2 * n) or not np.array_equal(Eu, np.eye(2 * n)[:n]):
+            return f"layer {k}: Eu is not [I 0]"
+        if not np.array_equal(Ed, np.eye(2 * n)[n:]):
+            return f"layer {k}: Ed is not [0 I]"
+        if not (np.all(beta[:n] > 0) and np.allclose(beta[n:], -beta[:n], rtol=1e-14, atol=0)):
+            return f"layer {k}: beta is not (kappa, -kappa) with kappa > 0"
+        for nm in ("rtop", "rbot", "ttop", "tbot"):
+            if not diagonal(ly[nm]):
+                return f"layer {k}: {nm} is not diagonal"
+    if not (diagonal(c.tbot_air) and diagonal(c.rbot_air)):
+        return "air-side matrices are not diagonal"
+    return None
 
 
 def textbook_lines(c):
@@ -77,8 +104,11 @@ def correspond(ctx):
         made += 1
         co.note(f"layers={len(c.layers)}"); co.note("substrate " + str((sc.get("substrate") or {}).get("kind")))
         co.add("dort.matrix+rhs", dortlib.case_line(c).replace("dort Abe ", "dort Ab ", 1), dortlib.case_impl_line(c, "Ab"), TOL, desc=sc)
-        trivial = all(np.allclose(l["Eu"], np.eye(2 * l["n"] * 2)[: l["n"] * 2]) for l in c.layers)
-        co.note("trivial eigen-solution" if trivial else "NON-TRIVIAL eigen-solution")
+        why = trivial_hypotheses(c)
+        co.note("hypotheses of stack_is_textbook hold on the code's objects" if why is None else "hypotheses of stack_is_textbook FAIL")
+        co.note("stream counts vary between layers" if len({l["n"] for l in c.layers}) > 1 else "stream counts equal")
+        if why is not None:
+            co.disagreements.append({"slice": "trivial.hypotheses", "why": why, "desc": sc, "line": "", "impl": why, "model": "TrivialLayer / TrivialStack"})
         for line, impl, d in textbook_lines(c):
             co.add("textbook", line, impl, Tol(1e-9, 1e-9), desc={"scene": sc, **d})
     return co
